@@ -85,7 +85,11 @@ def build(case):
     ext = SM.build_parent(case, affine=np.array(case['eaff']))
     aff = np.array(case['iaff'])
     if case['flip'] and case['isd'] is not None:
-        aff[case['isd'], :3] = -aff[case['isd'], :3]
+        # the slice axis runs the other way (a real flip of the voxel axis: its column is negated and
+        # the origin moves to the other end)
+        n = case['ishape'][case['isd']]
+        aff[:3, 3] = aff[:3, 3] + (n - 1) * aff[:3, case['isd']]
+        aff[:3, case['isd']] = -aff[:3, case['isd']]
     img = nb.Nifti1Image(np.zeros(case['ishape'], dtype=np.int16), aff)
     img.header.set_dim_info(slice=case['isd'])
     img.header.extensions.append(ext)
@@ -121,14 +125,14 @@ def call(w, key, index):
 
 
 def aligned_flag(w, case):
-    """is the image's slice direction (row `slice_dim` of its affine, as the extension documents
-    its slice normal) the extension's?  Computed from the generated matrices, not through the
+    """is the image's slice direction (the world direction of its slice axis: column `slice_dim` of
+    its affine) the extension's?  Computed from the generated matrices, not through the
     implementation's properties"""
     if case['isd'] is None or case['sd'] is None:
         return False
-    irow = np.array(case['iaff'])[case['isd'], :3] * (-1.0 if case['flip'] else 1.0)
-    erow = np.array(case['eaff'])[case['sd'], :3]
-    return bool(np.allclose(irow, erow, atol=1e-6))
+    icol = np.array(case['iaff'])[:3, case['isd']] * (-1.0 if case['flip'] else 1.0)
+    ecol = np.array(case['eaff'])[:3, case['sd']]
+    return bool(np.allclose(icol, ecol, atol=1e-6))
 
 
 def affected(cls, case):
@@ -152,6 +156,102 @@ def affected(cls, case):
     if cls == 'gslices':
         return tuple(es[3:]) != tuple(isx[3:])
     return False
+
+
+def reoriented_round(rep, r, tier, reqs, meta):
+    """the image is reoriented with nibabel (axes permuted and / or flipped, data, affine and
+    dim_info moved together) while the extension stays as it was.  Whatever the agreement tests
+    decide, a lookup may only return the default or the value of the position the voxel came from:
+    never a value belonging to another position, never an exception for an in-bounds index"""
+    import nibabel as nb
+    from dcmstack.dcmmeta import NiftiWrapper
+    n = 60 if tier == 'quick' else 1200
+    for ci in range(n):
+        c = SM.gen_subset_case(r, tier)
+        if c['sd'] is None:
+            continue
+        shape = list(c['shape'])
+        if r.random() < 0.6:
+            # make the slice axis exchangeable with another one (same length)
+            o = r.choice([d for d in range(3) if d != c['sd']])
+            shape[o] = shape[c['sd']]
+            c2 = SM.gen_subset_case(r, tier)
+            c['shape'] = shape
+            S, T, V = M.dims_of(shape, c['sd'])
+            ents = []
+            bases = M.bases_of_shape(shape)
+            for ki in range(r.randint(1, 4)):
+                tab, _ = M.gen_table(r, S, T, V)
+                cl = M.classify(r, shape, c['sd'], tab, True, bases)
+                if cl is None:
+                    continue
+                vals = M.values_for(cl, tab, S, T, V)
+                ents.append(['k%d' % ki, cl, vals[0] if cl == 'gconst' else vals])
+            c['ents'] = ents
+        ea = gen_affine(r)
+        if r.random() < 0.5:
+            # isotropic voxels: a permuted image can keep every agreement test satisfied
+            z = r.choice([1.0, 2.0])
+            P = np.zeros((3, 3))
+            perm = list(range(3))
+            r.shuffle(perm)
+            for i in range(3):
+                P[perm[i], i] = z * r.choice([1.0, 1.0, -1.0])
+            ea[:3, :3] = P
+        perm = list(range(3))
+        if r.random() < 0.7:
+            r.shuffle(perm)
+        flips = [r.choice([1, 1, -1]) for _ in range(3)]
+        ornt = np.array([[perm[i], flips[i]] for i in range(3)], dtype=float)
+        c.update({'op': 'lookup_reoriented', 'eaff': [[float(x) for x in row] for row in ea],
+                  'ornt': [[int(perm[i]), int(flips[i])] for i in range(3)], 'kind': 'reoriented'})
+        try:
+            ext = SM.build_parent(c, affine=ea)
+            img = nb.Nifti1Image(np.zeros(shape, dtype=np.int16), ea)
+            img.header.set_dim_info(slice=c['sd'])
+            img.header.extensions.append(ext)
+            img2 = img.as_reoriented(ornt)
+            w = NiftiWrapper(img2)
+        except Exception as e:
+            rep.count('lookup/reoriented_build_failed:' + type(e).__name__)
+            continue
+        ishape = list(img2.shape)
+        isd = img2.header.get_dim_info()[2]
+        # new index -> index before the reorientation
+        T = nb.orientations.inv_ornt_aff(ornt, shape[:3])
+        rep.count('lookup/kind/reoriented')
+        rep.count('lookup/reoriented/%s' % ('identity' if perm == [0, 1, 2] and flips == [1, 1, 1] else
+                                            ('flip_only' if perm == [0, 1, 2] else
+                                             ('perm_only' if flips == [1, 1, 1] else 'perm_flip'))))
+        c['ishape'], c['isd'], c['flip'] = ishape, isd, False
+        c['iaff'] = [[float(x) for x in row] for row in img2.affine]
+        al = aligned_flag(w, c) if isd is not None else False
+        ent = {e[0]: e for e in c['ents']}
+        allidx = list(itertools.product(*[range(k) for k in ishape]))
+        if len(allidx) > 40:
+            allidx = r.sample(allidx, 40)
+        for k, e in ent.items():
+            cls = e[1]
+            ks = [cls, [M.cv(e[2])] if cls == 'gconst' else [M.cv(x) for x in e[2]]]
+            for index in allidx:
+                got = call(w, k, index)
+                rep.evaluations += 1
+                rep.nontriv(['reoriented', shape, c['sd'], c['ornt'], cls, index])
+                old = T.dot(np.array(list(index[:3]) + [1.0]))[:3]
+                old = [int(round(x)) for x in old]
+                s = old[c['sd']]
+                t = index[3] if len(index) > 3 else 0
+                v = index[4] if len(index) > 4 else 0
+                truth = {'value': M.cv(M.ref_lookup(ext, k, s, t, v))}
+                if got != 'default' and got != truth:
+                    rep.failure('image reoriented with nibabel (ornt %s, extension unchanged): get_meta(%r, %r) returned %s; '
+                                'the voxel came from slice %d whose value is %s' % (
+                                    c['ornt'], k, index, json.dumps(got)[:80], s, json.dumps(truth)[:80]),
+                                {'tag': 'lookup:reoriented:%s' % cls, 'suite': 'lookup', 'case': c, 'key': k,
+                                 'index': list(index)})
+                reqs.append({'op': 'get_meta', 'eshape': c['shape'], 'esd': c['sd'], 'ishape': ishape, 'isd': isd,
+                             'aligned': al, 'ks': ks, 'index': [int(x) for x in index]})
+                meta.append((c, k, index, got))
 
 
 def main(pid, tier):
@@ -235,6 +335,7 @@ def main(pid, tier):
             reqs.append({'op': 'meta_valid', 'eshape': case['shape'], 'esd': case['sd'], 'ishape': case['ishape'],
                          'isd': case['isd'], 'aligned': al, 'cls': cname})
             meta.append((case, cname, 'meta_valid', mv))
+    reoriented_round(rep, r, tier, reqs, meta)
     answers = drv.ask(reqs)
     for a, (case, k, index, got) in zip(answers, meta):
         co['cases'] += 1
